@@ -107,6 +107,10 @@ def run(ctx, W):
             args_v = per + [ctx.real("x_extra", 0)]
         elif p.get("bad") == "dst+1":
             dw = dw + [dc[0]]
+        elif p.get("bad") == "vols-1":
+            args_v = per[:-1]
+        elif p.get("bad") == "src-1":
+            sw = sw[:-1]
         wl.transfer(W.src, sw, W.dst, dw, args_v, partition_by=p.get("partition_by", "auto"), wash_scheme=wash, **W.kwargs, **kw)
     elif op == "distribute":
         col = ctx.choose("col", list(range(W.src.n_columns)))
